@@ -1,4 +1,5 @@
-From FV Require Import Common.ExtractTypes Common.EventLog HashMap.HashMapModel HashMap.HashMapLog.
+From FV Require Import Common.ExtractTypes Common.EventLog HashMap.HashMapModel HashMap.HashMapLog HashMap.HashMapPtr.
 From Coq Require Extraction.
 From Coq Require Import ExtrOcamlBasic.
-Extraction "../build/extract/hashmap_model.ml" types_witness empty_hm step run empty_lhm lstep destructor_evs.
+Extraction "../build/extract/hashmap_model.ml" types_witness empty_hm step run empty_lhm lstep destructor_evs
+  p_init p_step p_destroy fuel_for abs.
